@@ -398,6 +398,10 @@ func (s *Swarm) OnGossipUnicast(src mesh.PeerName, buf []byte) (err error) {
 
 	// Go through each message in the decoded frame
 	for i := range frame {
+		if len(frame[i].ID) < 24 {
+			continue // The id is too short to carry a contract and a channel (16 + 2 * 4 bytes)
+		}
+
 		s.OnMessage(&frame[i])
 	}
 
